@@ -229,3 +229,87 @@ Proof.
 Qed.
 
 End W.
+
+(* ---- timed searches: an iteration at whose end the clock has not expired is an iteration of the unlimited search *)
+From Walleye Require Import Proofs.ClockSim Proofs.RootSim.
+
+Section T.
+Variable zt : ztable.
+Variable osort : N -> list BoardState -> list BoardState.
+Variable kk : N.
+Notation k1 := (Some kk).
+
+Lemma root_moves_clock fuel first : forall ms d alpha r o r2,
+  root_moves zt osort k1 fuel first ms d alpha r = Ok (o, r2) -> (clock (r_s r) <= clock (r_s r2))%N.
+Proof.
+  induction ms as [|mov rest IH]; intros d alpha r o r2 H; cbn [root_moves] in H.
+  - assert (r2 = r) by congruence. subst. lia.
+  - destruct (out_of_time k1 (r_s r)) as [e s] eqn:OT.
+    assert (Cs : clock s = (clock (r_s r) + 1)%N) by (change s with (snd (e, s)); rewrite <- OT; reflexivity).
+    destruct e.
+    + assert (r2 = mkR s (r_best r) (match r_best r with None => Send first :: r_events r | Some _ => r_events r end)) by congruence. subst r2. cbn [r_s]. lia.
+    + destruct (alpha_beta zt osort k1 fuel mov (d - 1) 1 (- POS_INF) (- alpha) true s) as [[v s1]| |] eqn:AB; try discriminate H.
+      destruct (alpha_beta_sim zt osort k1 None Logic.I fuel _ _ _ _ _ _ _ _ _ AB) as [M1 _].
+      destruct (insert_into_cur_line s1 0 mov) as [s2| |] eqn:I2; try discriminate H.
+      pose proof (insert_cur_clock _ _ _ _ I2) as C2.
+      destruct (alpha <? - v).
+      * destruct (out_of_time k1 s2) as [e2 s3] eqn:OT2.
+        assert (C3 : clock s3 = (clock s2 + 1)%N) by (change s3 with (snd (e2, s3)); rewrite <- OT2; reflexivity).
+        destruct e2; cbn [negb] in H; apply IH in H; cbn [r_s] in H; cbn [clock set_principle_variation with_pv] in H; lia.
+      * apply IH in H. cbn [r_s] in H. lia.
+Qed.
+
+Lemma root_moves_quiet_unlimited fuel first : forall ms d alpha r o r2,
+  root_moves zt osort k1 fuel first ms d alpha r = Ok (o, r2) -> quiet k1 (r_s r2) ->
+  root_moves zt osort None fuel first ms d alpha r = Ok (o, r2).
+Proof.
+  induction ms as [|mov rest IH]; intros d alpha r o r2 H Q; cbn [root_moves] in H |- *; [exact H|].
+  pose proof (root_moves_clock fuel first (mov :: rest) d alpha r o r2) as MC. cbn [root_moves] in MC. specialize (MC H).
+  unfold out_of_time in H at 1. cbn match in H. unfold out_of_time at 1. cbn match.
+  set (s := with_clock (r_s r) (clock (r_s r) + 1)%N) in *.
+  destruct (kk <=? clock (r_s r))%N eqn:E.
+  { exfalso. apply N.leb_le in E. assert (r2 = mkR s (r_best r) (match r_best r with None => Send first :: r_events r | Some _ => r_events r end)) by congruence.
+    subst r2. unfold quiet in Q. cbn [r_s clock with_clock s] in Q. lia. }
+  destruct (alpha_beta zt osort k1 fuel mov (d - 1) 1 (- POS_INF) (- alpha) true s) as [[v s1]| |] eqn:AB; try discriminate H.
+  destruct (alpha_beta_sim zt osort k1 None Logic.I fuel _ _ _ _ _ _ _ _ _ AB) as [M1 S1].
+  destruct (insert_into_cur_line s1 0 mov) as [s2| |] eqn:I2; try discriminate H.
+  pose proof (insert_cur_clock _ _ _ _ I2) as C2.
+  assert (Rest : forall a3 r3, root_moves zt osort k1 fuel first rest d a3 r3 = Ok (o, r2) -> (clock s1 <= clock (r_s r3))%N ->
+                 alpha_beta zt osort None fuel mov (d - 1) 1 (- POS_INF) (- alpha) true s = Ok (v, s1)).
+  { intros a3 r3 H3 L3. apply S1. pose proof (root_moves_clock fuel first rest d a3 r3 o r2 H3). unfold quiet in *. lia. }
+  destruct (alpha <? - v) eqn:Lt.
+  - unfold out_of_time in H at 1. cbn match in H.
+    destruct (kk <=? clock s2)%N eqn:E2; cbn [negb] in H.
+    + exfalso. apply N.leb_le in E2. pose proof (root_moves_clock fuel first rest d alpha _ o r2 H) as X. cbn [r_s clock with_clock] in X. unfold quiet in Q. lia.
+    + rewrite (Rest _ _ H ltac:(cbn [r_s clock set_principle_variation with_pv with_clock]; lia)), I2, Lt.
+      unfold out_of_time at 1. cbn match. cbn [negb]. apply IH; [exact H|exact Q].
+  - rewrite (Rest _ _ H ltac:(cbn [r_s]; lia)), I2, Lt. apply IH; [exact H|exact Q].
+Qed.
+
+End T.
+
+Section TV.
+Variable zt : ztable.
+Variable osort : N -> list BoardState -> list BoardState.
+Hypothesis osort_perm : forall i l, Permutation l (osort i l).
+
+(* C12 for searches under a clock: an iteration of depth 1..3 that ends before the allowance expires reports the
+   exact value and sends a move attaining it *)
+Theorem timed_iteration_value k fuel F first t d b ms0 ms ws A r o r2 :
+  1 <= d <= 3 -> 1 + Z.of_nat F <= 100 -> dt_nonneg t ->
+  generate_moves zt b AllMoves <> [] ->
+  Forall2 same_move ms0 (generate_moves zt b AllMoves) -> Permutation ms0 ms ->
+  Forall2 (rval zt F d t) (generate_moves zt b AllMoves) ws -> is_max A (map Z.opp ws) ->
+  dt_equiv (table (r_s r)) t ->
+  root_moves zt osort k fuel first ms d NEG_INF r = Ok (o, r2) -> quiet k (r_s r2) ->
+  exists r' mov line evs x,
+    o = Some r' /\ r_events r' = Info d A line :: Send mov :: evs /\ r_best r' = Some mov /\
+    In mov ms /\ rval zt F d t mov x /\ - x = A.
+Proof.
+  intros Hd HF NN NE SM P HFv IM E H Q.
+  assert (H' : root_moves zt osort None fuel first ms d NEG_INF r = Ok (o, r2)).
+  { destruct k as [kk|]; [|exact H]. now apply (root_moves_quiet_unlimited zt osort kk fuel first). }
+  exact (root_iteration_value zt osort osort_perm fuel F first t d b ms0 ms ws A r o r2 Hd HF NN NE SM P HFv IM E H').
+Qed.
+
+End TV.
